@@ -2,6 +2,7 @@ package main
 
 import (
 	"fmt"
+	"go/token"
 	"go/types"
 	"strings"
 
@@ -83,7 +84,7 @@ func ruleC04EveryKeyProbed(c *Ctx) {
 
 // probeKeyOrigin traces v back to `k` of `for k[, v] := range <driving>.<field>`; returns the Next instruction of that
 // loop, or the reason the trace ended elsewhere.
-func probeKeyOrigin(v ssa.Value, driving *ssa.Parameter, depth int, seen map[ssa.Value]bool) (*ssa.Next, string) {
+func probeKeyOrigin(v ssa.Value, driving *ssa.Parameter, depth int, seen map[ssa.Value]bool) (*ssa.BasicBlock, string) {
 	if depth > 12 || seen[v] {
 		return nil, "the trace does not end"
 	}
@@ -146,7 +147,7 @@ func probeKeyOrigin(v ssa.Value, driving *ssa.Parameter, depth int, seen map[ssa
 		if base != driving {
 			return nil, "the ranged map does not belong to the driving side (the executor's first catalog)"
 		}
-		return nx, ""
+		return nx.Block(), ""
 	case *ssa.Parameter:
 		fn := x.Parent()
 		if fn.Parent() == nil {
@@ -158,7 +159,7 @@ func probeKeyOrigin(v ssa.Value, driving *ssa.Parameter, depth int, seen map[ssa
 				idx = i
 			}
 		}
-		var res *ssa.Next
+		var res *ssa.BasicBlock
 		found := false
 		for _, b := range fn.Parent().Blocks {
 			for _, in := range b.Instrs {
@@ -209,8 +210,16 @@ func probeKeyOrigin(v ssa.Value, driving *ssa.Parameter, depth int, seen map[ssa
 			}
 			return nil, "it is a captured variable that cannot be resolved"
 		}
-		if _, ok := x.X.(*ssa.IndexAddr); ok {
-			return nil, "it is read back from a slice through an index (the keys were collected first)"
+		if ia, ok := x.X.(*ssa.IndexAddr); ok {
+			// `for _, k := range keys` over a slice that holds every key of the catalog
+			head, why := fullRangeIndex(ia)
+			if why != "" {
+				return nil, "it is read back from a slice through an index that is not the index of a range over the whole slice (" + why + ")"
+			}
+			if why := holdsEveryKey(ia.X, driving, depth+1, map[ssa.Value]bool{}); why != "" {
+				return nil, "it is read back from a slice that is not known to hold every key of the driving side: " + why
+			}
+			return head, ""
 		}
 		return nil, "it is loaded from " + x.X.String()
 	case *ssa.FreeVar:
@@ -219,7 +228,7 @@ func probeKeyOrigin(v ssa.Value, driving *ssa.Parameter, depth int, seen map[ssa
 		}
 		return nil, "it is a captured variable that cannot be resolved"
 	case *ssa.Phi:
-		var res *ssa.Next
+		var res *ssa.BasicBlock
 		for _, e := range x.Edges {
 			nx, why := probeKeyOrigin(e, driving, depth+1, seen)
 			if why != "" {
@@ -241,8 +250,8 @@ func probeKeyOrigin(v ssa.Value, driving *ssa.Parameter, depth int, seen map[ssa
 	return nil, fmt.Sprintf("it is computed (%T)", v)
 }
 
-func probeCell(a *ssa.Alloc, driving *ssa.Parameter, depth int, seen map[ssa.Value]bool) (*ssa.Next, string) {
-	var res *ssa.Next
+func probeCell(a *ssa.Alloc, driving *ssa.Parameter, depth int, seen map[ssa.Value]bool) (*ssa.BasicBlock, string) {
+	var res *ssa.BasicBlock
 	st := storesTo(a)
 	if len(st) == 0 {
 		return nil, "it is a variable that is never assigned"
@@ -285,8 +294,8 @@ func freeVarBinding(fv *ssa.FreeVar) ssa.Value {
 // everyRound: the instruction `in` of function g (the executor f itself or a function literal it starts per round) is
 // executed in every round of the range loop whose iterator step is nx: in f, the block of `in` (or of the statement that
 // starts g) dominates every predecessor of the loop head inside the loop; in g, it dominates every return.
-func everyRound(nx *ssa.Next, in ssa.Instruction, g, f *ssa.Function) string {
-	if nx == nil {
+func everyRound(head *ssa.BasicBlock, in ssa.Instruction, g, f *ssa.Function) string {
+	if head == nil {
 		return "the loop of the key was not found"
 	}
 	at := in
@@ -303,13 +312,13 @@ func everyRound(nx *ssa.Next, in ssa.Instruction, g, f *ssa.Function) string {
 		// the statement of f (nx's function) that starts g
 		at = nil
 		h := g
-		for h.Parent() != nil && h.Parent() != nx.Parent() {
+		for h.Parent() != nil && h.Parent() != head.Parent() {
 			h = h.Parent()
 		}
 		if h.Parent() == nil {
 			return "the function literal is not created in the function that holds the loop"
 		}
-		for _, b := range nx.Parent().Blocks {
+		for _, b := range head.Parent().Blocks {
 			for _, i2 := range b.Instrs {
 				var cv ssa.Value
 				switch s := i2.(type) {
@@ -326,10 +335,9 @@ func everyRound(nx *ssa.Next, in ssa.Instruction, g, f *ssa.Function) string {
 		if at == nil {
 			return "the function literal that makes the call is not started inside the loop of the key"
 		}
-	} else if in.Parent() != nx.Parent() {
+	} else if in.Parent() != head.Parent() {
 		return "the call is not in the function that holds the loop"
 	}
-	head := nx.Block()
 	ab := at.Block()
 	if !head.Dominates(ab) {
 		return "the call is not inside the loop of the key"
@@ -338,6 +346,152 @@ func everyRound(nx *ssa.Next, in ssa.Instruction, g, f *ssa.Function) string {
 		if head.Dominates(p) && !ab.Dominates(p) { // a back edge
 			return "a path from one round of the loop over the driving side's keys to the next does not make the call: a key can be skipped"
 		}
+	}
+	return ""
+}
+
+// fullRangeIndex: ia.Index is the index of go/ssa's lowering of `for i[, x] := range s` over the indexed slice itself
+// (phi[-1, i+1] with i+1 < len(s) as the loop test); returns the loop head.
+func fullRangeIndex(ia *ssa.IndexAddr) (*ssa.BasicBlock, string) {
+	add, ok := ia.Index.(*ssa.BinOp)
+	if !ok || add.Op != token.ADD {
+		return nil, "the index is not a range index"
+	}
+	one, isC := constIntOf(add.Y)
+	phi, isPhi := add.X.(*ssa.Phi)
+	if !isC || one != 1 || !isPhi || len(phi.Edges) != 2 {
+		return nil, "the index is not a range index"
+	}
+	start, other := phi.Edges[0], phi.Edges[1]
+	if other != ssa.Value(add) {
+		start, other = other, start
+	}
+	if k, isK := constIntOf(start); !isK || k != -1 || other != ssa.Value(add) {
+		return nil, "the index does not start at the first element and step by one"
+	}
+	// the loop test: add < len(slice)
+	head := phi.Block()
+	iff, ok := head.Instrs[len(head.Instrs)-1].(*ssa.If)
+	if !ok {
+		return nil, "the loop has no test"
+	}
+	cond, ok := iff.Cond.(*ssa.BinOp)
+	if !ok || cond.Op != token.LSS || cond.X != ssa.Value(add) || !isLenOf(cond.Y, ia.X) {
+		return nil, "the loop does not run to the length of the slice"
+	}
+	return head, ""
+}
+
+// holdsEveryKey: the slice value s was built by appending, in every round of a range over a catalog map of the driving
+// side, the key of that round (or is slices.Collect / slices.Sorted of maps.Keys of such a map).
+func holdsEveryKey(s ssa.Value, driving *ssa.Parameter, depth int, seen map[ssa.Value]bool) string {
+	if depth > 14 {
+		return "the trace does not end"
+	}
+	if seen[s] {
+		return ""
+	}
+	seen[s] = true
+	appends := 0
+	// base: v is what an append starts from (an emptied buffer `buf[:0]` is fine there; anywhere else a sub-slice loses keys)
+	var walk func(v ssa.Value, d int, base bool) string
+	walk = func(v ssa.Value, d int, base bool) string {
+		if d > 14 {
+			return "the trace does not end"
+		}
+		if seen[v] && v != s {
+			return ""
+		}
+		seen[v] = true
+		switch x := v.(type) {
+		case *ssa.Const, *ssa.MakeSlice:
+			return ""
+		case *ssa.Slice:
+			if x.Low == nil && x.High == nil {
+				return walk(x.X, d+1, base)
+			}
+			if hi, ok := constIntOf(x.High); base && x.Low == nil && ok && hi == 0 {
+				return ""
+			}
+			return "a sub-slice of the collected keys is taken at " + x.Parent().Prog.Fset.Position(x.Pos()).String() + ": the keys outside it are never probed"
+		case *ssa.Alloc:
+			return "" // make([]T, 0, n) as an array allocation
+		case *ssa.Phi:
+			for _, e := range x.Edges {
+				if why := walk(e, d+1, base); why != "" {
+					return why
+				}
+			}
+			return ""
+		case *ssa.UnOp:
+			if a, ok := x.X.(*ssa.Alloc); ok {
+				for _, st := range storesTo(a) {
+					if why := walk(st.Val, d+1, base); why != "" {
+						return why
+					}
+				}
+				return ""
+			}
+			return "it is loaded from " + x.X.String()
+		case *ssa.Call:
+			if b, ok := x.Call.Value.(*ssa.Builtin); ok && b.Name() == "append" && len(x.Call.Args) == 2 {
+				if why := walk(x.Call.Args[0], d+1, true); why != "" {
+					return why
+				}
+				// the appended element: the store into the variadic array
+				sl, ok := x.Call.Args[1].(*ssa.Slice)
+				if !ok {
+					return "a whole slice is appended"
+				}
+				arr, ok := sl.X.(*ssa.Alloc)
+				if !ok || arr.Referrers() == nil {
+					return "a whole slice is appended"
+				}
+				for _, r := range *arr.Referrers() {
+					ia, ok := r.(*ssa.IndexAddr)
+					if !ok || ia.Referrers() == nil {
+						continue
+					}
+					for _, r2 := range *ia.Referrers() {
+						st, ok := r2.(*ssa.Store)
+						if !ok {
+							continue
+						}
+						head, why := probeKeyOrigin(st.Val, driving, depth+1, map[ssa.Value]bool{})
+						if why != "" {
+							return "an appended element is not a key of the catalog (" + why + ")"
+						}
+						if why := everyRound(head, x, x.Parent(), x.Parent()); why != "" {
+							return "the append is not made in every round of the loop over the catalog"
+						}
+						appends++
+					}
+				}
+				return ""
+			}
+			if cal := x.Call.StaticCallee(); cal != nil && cal.Pkg != nil && cal.Pkg.Pkg.Path() == "slices" && (strings.HasPrefix(cal.Name(), "Collect") || strings.HasPrefix(cal.Name(), "Sorted")) && len(x.Call.Args) == 1 {
+				if inner, ok := x.Call.Args[0].(*ssa.Call); ok {
+					if ic := inner.Call.StaticCallee(); ic != nil && ic.Pkg != nil && ic.Pkg.Pkg.Path() == "maps" && strings.HasPrefix(ic.Name(), "Keys") && len(inner.Call.Args) == 1 {
+						m := inner.Call.Args[0]
+						if u, ok := m.(*ssa.UnOp); ok {
+							if fa, ok := u.X.(*ssa.FieldAddr); ok && fa.X == ssa.Value(driving) {
+								appends++
+								return ""
+							}
+						}
+						return "maps.Keys is not taken of a catalog map of the driving side"
+					}
+				}
+			}
+			return "it is the result of " + x.Call.Value.String()
+		}
+		return fmt.Sprintf("it is computed (%T)", v)
+	}
+	if why := walk(s, 0, false); why != "" {
+		return why
+	}
+	if appends == 0 {
+		return "nothing is appended to it"
 	}
 	return ""
 }
